@@ -61,7 +61,7 @@ def floors(tier):
     return {"A:runs": 300 * k, "A:rows_compared": 8000 * k, "A:csv_cells_compared": 50000 * k, "A:runs_with_skipped_in_batch": 40 * k,
             "A:best_config_decided": 250 * k, "A:loaded_best_config_decided": 250 * k, "A:stats_trials_compared": 1500 * k,
             "A:resumed_with_changed_config": 30 * k, "A:trials_without_results": 20 * k,
-            "A:runs_aborted_by_failure_limit": 10 * k, "A:runs_with_nan_gaps_in_the_optimised_metric": 30 * k, "A:continued_at_other_path": 60 * k, "A:statistics_compared_after_continuation": 30 * k, "A:runs_with_keys_missing_from_the_first_row": 100 * k, "A:best_config_per_metric_decided:mode_differs_from_first_metric": 30 * k,
+            "A:runs_aborted_by_failure_limit": 10 * k, "A:runs_with_nan_gaps_in_the_optimised_metric": 30 * k, "A:continued_at_other_path": 60 * k, "A:statistics_compared_after_continuation": 30 * k, "A:runs_with_keys_missing_from_the_first_row": 100 * k, "A:runs_with_table_written_several_times_during_the_run": 100 * k, "A:runs_with_table_written_before_a_new_key_appeared": 40 * k, "A:best_config_per_metric_decided:mode_differs_from_first_metric": 30 * k,
             "B:histories": 2000 * k, "B:histories_with_nan": 200 * k, "B:histories_with_ties": 100 * k, "B:stats_compared": 8000 * k,
             "B:best_decided": 1500 * k, "B:best_decided_with_non_numeric_reports": 60 * k}
 
@@ -211,7 +211,42 @@ def run_part_a(spec, o):
         r = simrun.SimRun(p, spec["seed"])
     else:
         r = simrun.ProcRun(p, spec["seed"], extra_fn=extra_fn, value_fn=value_fn)
-    r.run()
+    n_stores = [0]
+    skew = (not sim) and p["results_update_interval"] < 1 and random.Random(spec["seed"] + 79).random() < 0.7
+    if skew:
+        # RegularCallback (syne_tune.util) measures whole seconds of the wall clock between two stores: these runs take
+        # milliseconds, so the harness lets that clock run fast (every reading 0.6 s later than the one before) and the
+        # table is written several times during the run, as in an experiment of realistic length
+        import datetime as _dt
+        import syne_tune.util as _U
+
+        ticks = [0]
+
+        class _FastClock(_dt.datetime):
+            @classmethod
+            def now(cls, tz=None):
+                ticks[0] += 1
+                return _dt.datetime.now(tz) + _dt.timedelta(seconds=0.6 * ticks[0])
+
+        orig_store = r.store_cb.store_results
+
+        def counting_store():
+            n_stores[0] += 1
+            return orig_store()
+
+        r.store_cb.store_results = counting_store
+        old_clock = _U.datetime
+        _U.datetime = _FastClock
+        try:
+            r.run()
+        finally:
+            _U.datetime = old_clock
+        if n_stores[0] >= 3:
+            o.count("A:runs_with_table_written_several_times_during_the_run")
+            if sparse_keys:
+                o.count("A:runs_with_table_written_before_a_new_key_appeared")
+    else:
+        r.run()
     if r.exc is not None:
         n_err = sum(1 for e in r.rec.events if e[1] == "s.on_trial_error.call")
         if (p.get("abort_by_failures") and type(r.exc).__name__ == "ValueError" and "Trial - " in repr(r.exc)
